@@ -140,7 +140,7 @@ def run_case(cs):
     year = rng.choice([2019, 2021, 2024, 2026])
     now, now_side = _instant(rng, zone, year)
     d = cs.dir()
-    root = os.path.join(d, "R")
+    root = os.path.join(d, world.root_name(rng))
     os.makedirs(os.path.join(root, "sub"))
     files = {}
     sizes = [0, 0, 1, 2, 255, 4096, 70000]
@@ -152,6 +152,12 @@ def run_case(cs):
         mt, side = _instant(rng, zone, rng.choice([year, year - 1, 2015]))
         os.utime(os.path.join(root, rel), (mt, mt))
         files[rel] = (len(data), mt, side)
+    if rng.random() < 0.3 and files:
+        # a file reached through a symbolic link: the record describes the bytes that are hashed (the target)
+        target = sorted(files)[0]
+        os.symlink(os.path.join(root, target), os.path.join(root, "link-to-file.bin"))
+        files["link-to-file.bin"] = files[target]
+        cs.count("symlinked_files")
     dmt, dside = _instant(rng, zone, year)
     os.utime(os.path.join(root, "sub"), (dmt, dmt))
     clock.set_zone(zone)
